@@ -94,6 +94,10 @@ std::vector<NiNode*> NifFile::GetNodes() const {
 }
 
 void NifFile::CopyFrom(const NifFile& other) {
+	// Copying a model onto itself would clear it before anything is copied
+	if (this == &other)
+		return;
+
 	if (isValid)
 		Clear();
 
